@@ -23,8 +23,8 @@ package c03
 import (
 	"encoding/json"
 	"fmt"
-	"reflect"
 	"math"
+	"reflect"
 	"sort"
 	"strings"
 	"sync"
